@@ -86,8 +86,27 @@ let deploy_main path =
    done with End_of_file -> ());
   close_in ic
 
+(* timeout limits: one string per case, through the extracted Limit.parse_limit / as_secs *)
+let limit_main path =
+  let ic = open_in path in
+  (try while true do
+     let l = input_line ic in
+     if String.trim l <> "" then begin
+       let j = Json.parse l in
+       let cid = Json.to_str (Json.get "id" j) in
+       let s = Json.to_str (Json.get "s" j) in
+       (match parse_limit (bytes_of_string s) with
+        | None -> Printf.printf "case %s: L err\n" cid
+        | Some (v, u) ->
+            let secs = as_secs (v, u) in
+            Printf.printf "case %s: L %s %s %s\n" cid (zstring v) (unit_letter (unit_index u)) (if fits_i64 secs then zstring secs else "overflow"))
+     end
+   done with End_of_file -> ());
+  close_in ic
+
 let () =
   match Array.to_list Sys.argv with
+  | [_; "limit"; p] -> limit_main p
   | [_; "tree"; p] -> tree_main p
   | [_; "deploy"; p] -> deploy_main p
   | _ -> prerr_endline "usage: driver_model tree|deploy <cases.jsonl>"; exit 2
